@@ -904,17 +904,52 @@ func checkCloseFlush(r *Run, p *Prog) {
 		r.Ob("C02.R6.close", "Writer.Close flushes the index", p.Position(fn.Pos()), false, "no call to indexPersist.prepare in Close: commits inside the persist interval are never written")
 		return
 	}
-	// enclosing conditions
+	// flush guards: two-way blocks from which the flush is reachable and from which a
+	// success return is also reachable without the flush
+	c := p.CFG(fn)
+	isPrep := func(n ast.Node) bool { return contains(n, calls[0]) }
 	var conds []ast.Expr
-	ast.Inspect(fn.Body, func(x ast.Node) bool {
-		if ifs, ok := x.(*ast.IfStmt); ok && contains(ifs.Body, calls[0]) {
-			conds = append(conds, ifs.Cond)
+	for _, b := range c.G.Blocks {
+		cond := Cond(b)
+		if cond == nil || !b.Live {
+			continue
 		}
-		return true
-	})
-	if len(conds) == 0 {
-		r.Ob("C02.R6.close", "Writer.Close flushes the index unconditionally", p.Position(calls[0].Pos()), true, "")
-		return
+		start := []Point{{b, len(b.Nodes) - 1}}
+		_, all := c.ReachAvoiding(start, nil, nil)
+		reachesPrep := false
+		for _, pt := range c.NodesWhere(isPrep) {
+			if all[pt] {
+				reachesPrep = true
+			}
+		}
+		if !reachesPrep {
+			continue
+		}
+		// an edge of this block leads to a region that cannot flush but can return success
+		skips := false
+		for si := range b.Succs {
+			_, vis := c.ReachAvoiding([]Point{{b.Succs[si], -1}}, nil, nil)
+			canPrep := false
+			for _, pt := range c.NodesWhere(isPrep) {
+				if vis[pt] {
+					canPrep = true
+				}
+			}
+			if canPrep {
+				continue
+			}
+			for _, ex := range c.Exits() {
+				if !vis[ex.P] {
+					continue
+				}
+				if ex.Return == nil || (len(ex.Return.Results) == 1 && isNilIdent(fn, ex.Return.Results[0])) {
+					skips = true
+				}
+			}
+		}
+		if skips {
+			conds = append(conds, cond)
+		}
 	}
 	cfgType := p.Pkg(domainPkg).Types.Scope().Lookup("WriterConfig")
 	isConfigField := func(v *types.Var) bool {
